@@ -13,8 +13,8 @@ DEFAULT = dict(
     client_mailboxes=["m1", "m2"], shared_mailbox_ids=False,
     w_connect=6, w_claim=8, w_allocate=4, w_release=5, w_open=8, w_add=10, w_close=7, w_list=3, w_ping=1,
     w_malformed=3, w_drop=4, w_sweep=2, w_restart=1, w_crash=0, w_fault=0, w_reconnect=4, w_bigjump=1,
-    usage=None, blur=None, allow_list=None, int_ids=False, moods=["happy", "lonely", "errory", "scary", "weird", None],
-    p_badcv=0.0, p_near_ids=0.0, extra_keys=True, quiesce=False, timer=False, welcome=False, start=8000, period=2400, expiration=5280, p_fault=0.0,
+    usage=None, blur=None, allow_list=None, int_ids=False, moods=["happy", "lonely", "errory", "scary", "weird", None, "Happy", "SCARY", "lonely ", ""],
+    p_badcv=0.0, p_near_ids=0.0, odd_scalars=False, extra_keys=True, quiesce=False, timer=False, welcome=False, start=8000, period=2400, expiration=5280, p_fault=0.0,
 )
 
 
@@ -178,6 +178,16 @@ class Gen(object):
         if self.p["int_ids"] and self.r.random() < 0.3:
             ph = self.r.randrange(5)
         msg = {"type": "add", "phase": ph, "body": "%02x" % self.r.randrange(256) * self.r.randrange(1, 4)}
+        if self.p["odd_scalars"]:
+            # strings that LOOK like something else: numbers, hex in either case, JSON, SQL wildcards, the empty string
+            odd = ["1", "007", "-3", " 42 ", "1_0", "\u0663", "1e3", "0x10", "true", "null", "", "DEADBEEF", "0aF3", "deadbeef", "00",
+                   "{\"a\":1}", "%", "_", "a'b", "a\"b", "caf\u00e9", "cafe\u0301", "\u212b", "\u00c5", "x" * 300]
+            if self.r.random() < 0.6:
+                msg["phase"] = self.r.choice(odd)
+            if self.r.random() < 0.6:
+                msg["body"] = self.r.choice(odd)
+            if self.r.random() < 0.3:
+                msg["id"] = self.r.choice(odd)
         if self.r.random() < 0.5:
             msg["id"] = self.r.choice(["m%d" % self.r.randrange(50), "007", "1.50", None] +
                                       ([self.r.randrange(50)] if self.p["int_ids"] else []))
@@ -305,7 +315,7 @@ class Gen(object):
         cfg = {"op": "cfg", "rebooted": self.t,
                "usage": p["usage"] if p["usage"] is not None else r.random() < 0.6,
                "allow_list": p["allow_list"] if p["allow_list"] is not None else r.random() < 0.7,
-               "blur": p["blur"] if p["blur"] is not None else r.choice([None, None, 1, 7, 60, 3600])}
+               "blur": p["blur"] if p["blur"] is not None else r.choice([None, None, 1, 7, 60, 3600, 0])}
         if p["blur"] == "none":
             cfg["blur"] = None
         if p["blur"] == "rand":
